@@ -334,6 +334,81 @@ struct Rewriter<'a> {
     closure_method_map: BTreeMap<String, String>,
     expand_cast_macro: bool,
     escaping_async_blocks_allowed: usize,
+    /// R27: sibling methods of the impl under extraction that are neither extracted, nor stand-ins of the prelude: inlined at call sites
+    inline_table: BTreeMap<String, syn::ImplItemFn>,
+    inline_depth: usize,
+}
+
+/// `self` inside an inlined helper body becomes the receiver expression of the call
+struct SelfSubst<'a> { recv: &'a syn::Expr }
+impl<'a> VisitMut for SelfSubst<'a> {
+    fn visit_expr_mut(&mut self, e: &mut syn::Expr) {
+        if let syn::Expr::Path(p) = e {
+            if p.qself.is_none() && p.path.is_ident("self") { *e = self.recv.clone(); return; }
+        }
+        visit_mut::visit_expr_mut(self, e);
+    }
+    fn visit_item_mut(&mut self, _i: &mut syn::Item) {}
+}
+/// guard-style early returns at the top level of a helper body are turned into the equivalent expression form:
+///   `A; if c { B; return v; } R`            ->  `A; if c { B; v } else { R' }`
+///   `A; let P = e else { return v; }; R`     ->  `A; match e { P => { R' } _ => v }`
+/// (R' = the same applied to R).  Returns None when a `return` remains anywhere else.
+fn eliminate_guard_returns(stmts: &[syn::Stmt]) -> Option<Vec<syn::Stmt>> {
+    struct HasRet(bool);
+    impl<'ast> syn::visit::Visit<'ast> for HasRet {
+        fn visit_expr_return(&mut self, _r: &'ast syn::ExprReturn) { self.0 = true; }
+        fn visit_expr_closure(&mut self, _c: &'ast syn::ExprClosure) {}
+    }
+    let has_ret_stmt = |st: &syn::Stmt| { let mut h = HasRet(false); syn::visit::Visit::visit_stmt(&mut h, st); h.0 };
+    for (i, st) in stmts.iter().enumerate() {
+        if !has_ret_stmt(st) { continue; }
+        let rest = eliminate_guard_returns(&stmts[i + 1..])?;
+        let before: Vec<syn::Stmt> = stmts[..i].to_vec();
+        match st {
+            syn::Stmt::Expr(syn::Expr::If(ifx), _) if ifx.else_branch.is_none() => {
+                let tb = &ifx.then_branch.stmts;
+                let (last, init) = tb.split_last()?;
+                if init.iter().any(|s| has_ret_stmt(s)) { return None; }
+                let v: syn::Expr = match last {
+                    syn::Stmt::Expr(syn::Expr::Return(r), _) => match &r.expr { Some(x) => (**x).clone(), None => syn::parse_quote!(()) },
+                    _ => return None,
+                };
+                let cond = &ifx.cond;
+                let new_if: syn::Expr = syn::parse_quote!(if #cond { #(#init)* #v } else { #(#rest)* });
+                let mut out = before;
+                out.push(syn::Stmt::Expr(new_if, None));
+                return Some(out);
+            }
+            syn::Stmt::Local(l) => {
+                let init = l.init.as_ref()?;
+                let (_, div) = init.diverge.as_ref()?;
+                let v: syn::Expr = match &**div {
+                    syn::Expr::Block(b) if b.block.stmts.len() == 1 => match &b.block.stmts[0] {
+                        syn::Stmt::Expr(syn::Expr::Return(r), _) => match &r.expr { Some(x) => (**x).clone(), None => syn::parse_quote!(()) },
+                        _ => return None,
+                    },
+                    _ => return None,
+                };
+                let mut h = HasRet(false); syn::visit::Visit::visit_expr(&mut h, &init.expr); if h.0 { return None; }
+                let pat = &l.pat; let ex = &init.expr;
+                let new_m: syn::Expr = syn::parse_quote!(match #ex { #pat => { #(#rest)* } _ => #v });
+                let mut out = before;
+                out.push(syn::Stmt::Expr(new_m, None));
+                return Some(out);
+            }
+            _ => return None,
+        }
+    }
+    Some(stmts.to_vec())
+}
+fn is_place(e: &syn::Expr) -> bool {
+    match e {
+        syn::Expr::Path(p) => p.qself.is_none() && p.path.get_ident().is_some(),
+        syn::Expr::Field(f) => is_place(&f.base),
+        syn::Expr::Paren(p) => is_place(&p.expr),
+        _ => false,
+    }
 }
 
 /// chainmap key/value: an expression over metavariables; a text that starts with a method name gets the receiver `__`
@@ -357,6 +432,15 @@ fn match_pat(pat: &syn::Expr, e: &syn::Expr, binds: &mut BTreeMap<String, syn::E
             p.method == m.method && p.turbofish.is_none() && p.args.len() == m.args.len()
                 && match_pat(&p.receiver, &m.receiver, binds)
                 && p.args.iter().zip(m.args.iter()).all(|(a, b)| match_pat(a, b, binds))
+        }
+        (syn::Expr::Range(p), syn::Expr::Range(m)) => {
+            let same_limits = matches!((&p.limits, &m.limits), (syn::RangeLimits::HalfOpen(_), syn::RangeLimits::HalfOpen(_)) | (syn::RangeLimits::Closed(_), syn::RangeLimits::Closed(_)));
+            let opt = |a: &Option<Box<syn::Expr>>, b: &Option<Box<syn::Expr>>, binds: &mut BTreeMap<String, syn::Expr>| match (a, b) {
+                (None, None) => true,
+                (Some(x), Some(y)) => match_pat(x, y, binds),
+                _ => false,
+            };
+            same_limits && opt(&p.start, &m.start, binds) && opt(&p.end, &m.end, binds)
         }
         (syn::Expr::Index(p), syn::Expr::Index(m)) => match_pat(&p.expr, &m.expr, binds) && match_pat(&p.index, &m.index, binds),
         (syn::Expr::Field(p), syn::Expr::Field(m)) => norm_tokens(&p.member.to_token_stream()) == norm_tokens(&m.member.to_token_stream()) && match_pat(&p.base, &m.base, binds),
@@ -906,6 +990,91 @@ impl<'a> VisitMut for Rewriter<'a> {
             }
         }
         visit_mut::visit_expr_mut(self, e);
+        // R27: a call `recv.helper(args)` of a sibling method that has no contract and no stand-in is replaced by the helper's body
+        // (arguments bound first, `self` := recv).  Only for helpers without `return`/`?`/await, with plain identifier parameters,
+        // called on a place expression; anything else is left alone (=> the call does not resolve => undecided)
+        if !self.inline_table.is_empty() && self.inline_depth < 2 {
+            if let syn::Expr::MethodCall(m) = e {
+                if let Some(mut h) = self.inline_table.get(&m.method.to_string()).cloned() {
+                    if let Some(st2) = eliminate_guard_returns(&h.block.stmts) { h.block.stmts = st2; }
+                    struct Esc3(bool);
+                    impl<'ast> syn::visit::Visit<'ast> for Esc3 {
+                        fn visit_expr_return(&mut self, _r: &'ast syn::ExprReturn) { self.0 = true; }
+                        fn visit_expr_try(&mut self, _r: &'ast syn::ExprTry) { self.0 = true; }
+                        fn visit_expr_await(&mut self, _r: &'ast syn::ExprAwait) { self.0 = true; }
+                        fn visit_expr_closure(&mut self, _c: &'ast syn::ExprClosure) {}
+                    }
+                    let mut esc = Esc3(false);
+                    syn::visit::Visit::visit_block(&mut esc, &h.block);
+                    let recv_ok = is_place(&m.receiver);
+                    let has_ref_recv = matches!(h.sig.inputs.first(), Some(syn::FnArg::Receiver(r)) if r.reference.is_some());
+                    let mut params: Vec<syn::Ident> = vec![];
+                    let mut params_ok = true;
+                    for a in h.sig.inputs.iter().skip(1) {
+                        match a {
+                            syn::FnArg::Typed(t) => match &*t.pat { syn::Pat::Ident(pi) if pi.by_ref.is_none() && pi.subpat.is_none() => params.push(pi.ident.clone()), _ => params_ok = false },
+                            _ => params_ok = false,
+                        }
+                    }
+                    if !esc.0 && recv_ok && has_ref_recv && params_ok && h.sig.asyncness.is_none() && h.sig.generics.params.is_empty() && params.len() == m.args.len() {
+                        let mut body = h.block.clone();
+                        let recv = (*m.receiver).clone();
+                        SelfSubst { recv: &recv }.visit_block_mut(&mut body);
+                        let args: Vec<syn::Expr> = m.args.iter().cloned().collect();
+                        let stmts = &body.stmts;
+                        let mut new_e: syn::Expr = syn::parse_quote!({ #( let #params = #args; )* #(#stmts)* });
+                        self.inline_depth += 1;
+                        self.visit_expr_mut(&mut new_e);
+                        self.inline_depth -= 1;
+                        *e = new_e;
+                        self.rules.insert(format!("R27({})", h.sig.ident));
+                        return;
+                    }
+                }
+            }
+        }
+        // R27 (associated functions): `Self::helper(args)` / `Type::helper(args)` without a receiver
+        if !self.inline_table.is_empty() && self.inline_depth < 2 {
+            if let syn::Expr::Call(c) = e {
+                if let syn::Expr::Path(fp) = &*c.func {
+                    let segs: Vec<String> = fp.path.segments.iter().map(|s| s.ident.to_string()).collect();
+                    if segs.len() == 2 && fp.qself.is_none() {
+                        if let Some(mut h) = self.inline_table.get(&segs[1]).cloned() {
+                            let no_recv = !matches!(h.sig.inputs.first(), Some(syn::FnArg::Receiver(_)));
+                            if let Some(st2) = eliminate_guard_returns(&h.block.stmts) { h.block.stmts = st2; }
+                            struct Esc4(bool);
+                            impl<'ast> syn::visit::Visit<'ast> for Esc4 {
+                                fn visit_expr_return(&mut self, _r: &'ast syn::ExprReturn) { self.0 = true; }
+                                fn visit_expr_try(&mut self, _r: &'ast syn::ExprTry) { self.0 = true; }
+                                fn visit_expr_await(&mut self, _r: &'ast syn::ExprAwait) { self.0 = true; }
+                                fn visit_expr_closure(&mut self, _c: &'ast syn::ExprClosure) {}
+                            }
+                            let mut esc = Esc4(false);
+                            syn::visit::Visit::visit_block(&mut esc, &h.block);
+                            let mut params: Vec<syn::Ident> = vec![];
+                            let mut params_ok = true;
+                            for a in h.sig.inputs.iter() {
+                                match a {
+                                    syn::FnArg::Typed(t) => match &*t.pat { syn::Pat::Ident(pi) if pi.by_ref.is_none() && pi.subpat.is_none() => params.push(pi.ident.clone()), _ => params_ok = false },
+                                    _ => params_ok = false,
+                                }
+                            }
+                            if no_recv && !esc.0 && params_ok && h.sig.asyncness.is_none() && h.sig.generics.params.is_empty() && params.len() == c.args.len() {
+                                let args: Vec<syn::Expr> = c.args.iter().cloned().collect();
+                                let stmts = &h.block.stmts;
+                                let mut new_e: syn::Expr = syn::parse_quote!({ #( let #params = #args; )* #(#stmts)* });
+                                self.inline_depth += 1;
+                                self.visit_expr_mut(&mut new_e);
+                                self.inline_depth -= 1;
+                                *e = new_e;
+                                self.rules.insert(format!("R27({})", h.sig.ident));
+                                return;
+                            }
+                        }
+                    }
+                }
+            }
+        }
         // R20 (index form): `X[i] = v` (X a plain identifier) becomes `X.set(i, v)` -- vstd's name for the same store on a Vec
         if self.index_store {
             if let syn::Expr::Assign(a) = e {
@@ -1013,6 +1182,21 @@ impl<'a> VisitMut for Rewriter<'a> {
         if let syn::Expr::Macro(m) = e {
             if m.mac.path.is_ident("vec") {
                 let parser = syn::punctuated::Punctuated::<syn::Expr, syn::Token![,]>::parse_terminated;
+                struct Rep { x: syn::Expr, n: syn::Expr }
+                impl syn::parse::Parse for Rep {
+                    fn parse(input: syn::parse::ParseStream) -> syn::Result<Self> {
+                        let x: syn::Expr = input.parse()?; let _: syn::Token![;] = input.parse()?; let n: syn::Expr = input.parse()?;
+                        Ok(Rep { x, n })
+                    }
+                }
+                if let Ok(mut rep) = syn::parse2::<Rep>(m.mac.tokens.clone()) {
+                    // R23 (repeat form): `vec![x; n]` is the stand-in `vx_vec_repeat(x, n)` (n copies of x)
+                    self.visit_expr_mut(&mut rep.x); self.visit_expr_mut(&mut rep.n);
+                    let (x, n) = (rep.x, rep.n);
+                    *e = syn::parse_quote!(vx_vec_repeat(#x, #n));
+                    self.rules.insert("R23".into());
+                    return;
+                }
                 if let Ok(elems) = syn::parse::Parser::parse2(parser, m.mac.tokens.clone()) {
                     let mut elems: Vec<syn::Expr> = elems.into_iter().collect();
                     for x in elems.iter_mut() { self.visit_expr_mut(x); }
@@ -1538,6 +1722,12 @@ fn main() {
         out
     }
     let prelude = expand_includes(&unit, &prelude_raw, 0);
+    let prelude_fn_names: BTreeSet<String> = {
+        let mut out = BTreeSet::new();
+        let toks: Vec<&str> = prelude.split(|c: char| !(c.is_alphanumeric() || c == '_')).filter(|t| !t.is_empty()).collect();
+        for w in toks.windows(2) { if w[0] == "fn" { out.insert(w[1].to_string()); } }
+        out
+    };
     let contracts_src = std::fs::read_to_string(unit.join("contracts.vx")).unwrap_or_default();
     let mut contracts = parse_contracts(&contracts_src).unwrap_or_else(|e| die(format!("contracts.vx: {}", e)));
     if drop_beyond {
@@ -1622,6 +1812,8 @@ fn main() {
             closure_method_map: unit_toml.closure_method_map.clone(),
             expand_cast_macro: unit_toml.expand_cast_macro,
             escaping_async_blocks_allowed: 0,
+            inline_table: BTreeMap::new(),
+            inline_depth: 0,
             chainmap: unit_toml.chainmap.iter().map(|(k, v)| (parse_chain(k), parse_chain(v))).collect(),
         };
         let extra_attrs: Vec<syn::Attribute> = spec
@@ -1795,6 +1987,24 @@ fn main() {
                 if matched.is_empty() { die(format!("lost anchor: `{}` in {}", spec.path, spec.file)); }
                 let mut want: BTreeSet<String> = spec.methods.iter().cloned().collect();
                 let all = want.is_empty();
+                // R27 table: inherent sibling methods of the same type in this file that nobody else provides
+                if !all && trait_name.is_none() {
+                    let listed: BTreeSet<String> = unit_toml.item.iter().flat_map(|i| i.methods.iter().cloned()).collect();
+                    for it in items.iter() {
+                        if let syn::Item::Impl(im2) = it {
+                            if im2.trait_.is_some() || !cfg.keep(&im2.attrs) { continue; }
+                            if type_last_ident(&im2.self_ty).as_deref() != Some(type_name) { continue; }
+                            for ii in im2.items.iter() {
+                                if let syn::ImplItem::Fn(mf) = ii {
+                                    if !cfg.keep(&mf.attrs) { continue; }
+                                    let n = mf.sig.ident.to_string();
+                                    if listed.contains(&n) || prelude_fn_names.contains(&n) { continue; }
+                                    rw.inline_table.insert(n, mf.clone());
+                                }
+                            }
+                        }
+                    }
+                }
                 for mut im in matched {
                     // select methods
                     let mut selected: Vec<syn::ImplItem> = vec![];
